@@ -176,3 +176,65 @@ func VerifHTMLKeepInConditional(n int) {
 	}
 	vReach("end")
 }
+
+var verifNonDefaults = []struct{ tag, attr, val string }{
+	{"button", "formmethod", "get"}, {"button", "formmethod", "GET"}, {"button", "formenctype", "application/x-www-form-urlencoded"}, {"input", "formmethod", "get"},
+	{"button", "type", "button"}, {"button", "type", "reset"}, {"input", "type", "checkbox"}, {"form", "method", "post"}, {"form", "method", "dialog"}, {"ol", "type", "a"}, {"td", "rowspan", "2"},
+	{"script", "type", "module"}, {"link", "media", "print"}, {"a", "target", "_blank"}, {"textarea", "wrap", "hard"}, {"track", "kind", "captions"}, {"th", "scope", "row"}, {"area", "shape", "circle"},
+}
+
+// VerifHTMLNonDefaults: <TAG ATTR=V> where V is NOT the default of ATTR on TAG (18 pairs, among them the form-owner
+// overrides formmethod / formenctype, which have no default of their own): the attribute stays, with its value.
+func VerifHTMLNonDefaults(n int) {
+	d := verifNonDefaults[vChoice("d", len(verifNonDefaults))]
+	in := []byte("<" + d.tag + " " + d.attr + "=\"" + d.val + "\">")
+	o := verifSymOptions()
+	out, err := verifHTMLRun(in, o)
+	vReach("after-call")
+	vOutput("out", out)
+	vAssert(err == nil, "accepted")
+	_, attrs, _, ok := rhStartTag(out)
+	vAssert(ok, "start tag kept")
+	found := false
+	for _, a := range attrs {
+		if rhEq(a.name, []byte(d.attr)) {
+			found = true
+			got := append([]byte(nil), a.val...)
+			want := []byte(d.val)
+			vAssert(len(got) == len(want), "value kept")
+			for i := range got {
+				vAssert(got[i] == want[i] || got[i] == want[i]+32, "value kept (up to case of enumerated keywords)")
+			}
+		}
+	}
+	vAssert(found, "an attribute whose value is not the default is kept")
+	vReach("end")
+}
+
+var verifTagPairs = [][2]string{
+	{"<a id=x name=z>1</a>", "<a id=y href=y>2</a>"}, {"<input type=checkbox value=x>", "<input type=radio name=on>"},
+	{"<script src=a.js charset=utf-8></script>", "<script src=b.js integrity=q></script>"}, {"<meta charset=utf-8>", "<meta name=a content=b>"},
+	{"<meta http-equiv=content-type content=\"text/html;charset=utf-8\">", "<meta name=keywords content=\"a, b\">"}, {"<a name=z id=z>1</a>", "<a href=u class=c>2</a>"},
+	{"<input type=text value=\"\" name=n>", "<input type=submit id=i>"}, {"<link rel=stylesheet type=text/css href=a>", "<link rel=icon sizes=any href=b>"},
+	{"<img src=a alt=\"\">", "<img src=b title=t>"}, {"<form method=get action=a></form>", "<form method=post name=f></form>"},
+}
+
+// VerifHTMLTwoTags: two tags of the same family in one document: the attributes of the second tag do not depend on
+// the first one (per-tag attribute look-up state must not survive from tag to tag): T1 T2 gives T2's start tag as T2
+// alone does.
+func VerifHTMLTwoTags(n int) {
+	p := verifTagPairs[vChoice("pair", len(verifTagPairs))]
+	first, second := p[0], p[1]
+	if vBool("swap") {
+		first, second = second, first
+	}
+	o1, o2 := verifSymOptions(), &Minifier{}
+	*o2 = *o1
+	alone, err1 := verifHTMLRun([]byte(second), o1)
+	both, err2 := verifHTMLRun([]byte(first+second), o2)
+	vReach("after-call")
+	vOutput("both", both)
+	vAssert(err1 == nil && err2 == nil, "accepted")
+	vAssert(len(both) >= len(alone) && rhEq(both[len(both)-len(alone):], alone), "the second tag is minified as it is on its own: "+string(both)+" vs "+string(alone))
+	vReach("end")
+}
